@@ -5,6 +5,7 @@ package main
 //
 //	harness_raft sim     <outdir> <seed> <first> <count> <nevents>
 //	harness_raft simcc   <outdir> <seed> <first> <count> <nevents>   (with membership changes)
+//	harness_raft simpv   <outdir> <seed> <first> <count> <nevents>   (Config.PreVote on, CheckQuorum in half)
 //	harness_raft simfile <schedule-file> <out-trace>
 //
 // Every node is a raft.RawNode over a raft.MemoryStorage that was initialised with a
@@ -35,7 +36,7 @@ package main
 //
 // Trace format, one group per event:
 //
-//	N <n> <electionTick> <rngseed> <MaxSizePerMsg>
+//	N <n> <electionTick> <rngseed> <MaxSizePerMsg> <k: initial voters 1..k, 0 = all> <flags: 1 PreVote, 2 CheckQuorum>
 //	EV <kind> <node> <args>
 //	OUT <msg>                     (0 or more: what the node handed to the network)
 //	ST <node> <term> <vote> <commit> <role F|C|L> <lead> <nlog> (<term> <payload>)* [CFG <nin> ids <nout> ids <autoleave>]
@@ -62,6 +63,7 @@ import (
 func init() {
 	subcmds["sim"] = cmdSim
 	subcmds["simcc"] = cmdSimCC
+	subcmds["simpv"] = cmdSimPV
 	subcmds["simfile"] = cmdSimFile
 }
 
@@ -95,6 +97,8 @@ type cluster struct {
 	electionTick int
 	maxSize      uint64
 	ccVoters     int // > 0: membership-change schedule; the initial voters are 1..ccVoters
+	preVote      bool // Config.PreVote (simpv schedules; monitored, not model-validated)
+	checkQuorum  bool // Config.CheckQuorum
 	snapHeavy    bool // schedule numbers 3000000..3999999: frequent compaction and duplicated deliveries
 	nodes        []*simNode
 	flight       []flightMsg
@@ -219,6 +223,10 @@ func msgKey(fm flightMsg) string {
 			}
 		}
 		return fmt.Sprintf("S %d %d %d %d %d 0 %d %s", m.From, m.To, m.Term, m.Snapshot.Metadata.Term, monus1(m.Snapshot.Metadata.Index), out, entsStr(fm.ghost))
+	case pb.MsgPreVote:
+		return fmt.Sprintf("XPV %d %d %d %d %d 0 0 0", m.From, m.To, m.Term, m.LogTerm, monus1(m.Index))
+	case pb.MsgPreVoteResp:
+		return fmt.Sprintf("XPW %d %d %d 0 0 0 %d 0", m.From, m.To, m.Term, rej)
 	case pb.MsgProp:
 		p := uint64(0)
 		if len(m.Entries) > 0 {
@@ -239,11 +247,14 @@ func (c *cluster) config(nd *simNode) *raft.Config {
 		MaxInflightMsgs:           256,
 		MaxUncommittedEntriesSize: 1 << 30,
 		Logger:                    theLogger,
+		PreVote:                   c.preVote,
+		CheckQuorum:               c.checkQuorum,
 	}
 }
 
-func newCluster(n, electionTick int, rngseed uint64, maxSize uint64, ccVoters int, w *bufio.Writer) (*cluster, error) {
-	c := &cluster{n: n, electionTick: electionTick, maxSize: maxSize, ccVoters: ccVoters, w: w, nextPayload: 1}
+func newCluster(n, electionTick int, rngseed uint64, maxSize uint64, ccVoters int, flags int, w *bufio.Writer) (*cluster, error) {
+	c := &cluster{n: n, electionTick: electionTick, maxSize: maxSize, ccVoters: ccVoters, w: w, nextPayload: 1,
+		preVote: flags&1 != 0, checkQuorum: flags&2 != 0}
 	reseedRaftRand(rngseed)
 	nv := n
 	if ccVoters > 0 && ccVoters < n {
@@ -266,7 +277,7 @@ func newCluster(n, electionTick int, rngseed uint64, maxSize uint64, ccVoters in
 		nd.rn = rn
 		c.nodes = append(c.nodes, nd)
 	}
-	fmt.Fprintf(w, "N %d %d %d %d %d\n", n, electionTick, rngseed, maxSize, ccVoters)
+	fmt.Fprintf(w, "N %d %d %d %d %d %d\n", n, electionTick, rngseed, maxSize, ccVoters, flags)
 	// the initial Ready only persists HardState{Commit:1}; drain it silently
 	for _, nd := range c.nodes {
 		c.drain(nd)
@@ -553,7 +564,7 @@ func (c *cluster) runRandom(r *rng, nevents int) {
 			if d := deliverable(); len(d) > 0 {
 				k := d[r.intn(len(d))]
 				// snapshots are often kept in flight so that stale ones get re-delivered later
-				if c.flight[k].m.Type == pb.MsgSnap && r.chance(1, 2) {
+				if (c.flight[k].m.Type == pb.MsgSnap || c.flight[k].m.Type == pb.MsgPreVoteResp) && r.chance(1, 2) {
 					ok = stepMsg("DD", k, true)
 				} else {
 					ok = stepMsg("D", k, false)
@@ -647,6 +658,14 @@ func ccFor(r *rng, n int) int {
 	return 1 + r.intn(n)
 }
 
+// simpv = sim with Config.PreVote (and CheckQuorum): monitored, not model-validated
+var simWithPreVote bool
+
+func cmdSimPV(args []string) error {
+	simWithPreVote = true
+	return cmdSim(args)
+}
+
 func cmdSimCC(args []string) error {
 	simWithConfChanges = true
 	return cmdSim(args)
@@ -690,8 +709,20 @@ func cmdSim(args []string) error {
 		if r.chance(1, 3) {
 			maxSize = 0
 		}
+		flags := 0
+		if simWithPreVote {
+			// PreVote on; CheckQuorum on in half of the schedules; a small election timeout in half
+			// of them so that ticks campaign and CheckQuorum fires
+			flags = 1
+			if r.chance(1, 2) {
+				flags |= 2
+			}
+			if r.chance(1, 2) {
+				et = 3 + r.intn(6)
+			}
+		}
 		fmt.Fprintf(w, "SCHEDULE %d\n", k)
-		c, err := newCluster(n, et, ss, maxSize, ccFor(r, n), w)
+		c, err := newCluster(n, et, ss, maxSize, ccFor(r, n), flags, w)
 		if err != nil {
 			return err
 		}
@@ -745,7 +776,11 @@ func cmdSimFile(args []string) error {
 			if len(tok) > 5 {
 				ccv, _ = strconv.Atoi(tok[5])
 			}
-			c, err = newCluster(n, et, rs, ms, ccv, w)
+			fl := 0
+			if len(tok) > 6 {
+				fl, _ = strconv.Atoi(tok[6])
+			}
+			c, err = newCluster(n, et, rs, ms, ccv, fl, w)
 			if err != nil {
 				return err
 			}
